@@ -30,6 +30,19 @@ theorem Sat.bind {α β} {x : M α} {f : α → M β} {w : World} {Q : World →
     | ok a => exact h
     | error e => exact h
 
+/-- a total first step and a continuation whose postcondition holds from every world -/
+theorem Sat.bind_total {α β} {x : M α} {f : α → M β} {w : World} {Q : World → Except Err β → Prop}
+    (hx : Total x) (h : ∀ a w1, Sat (f a) w1 Q) : Sat (x >>= f) w Q := by
+  unfold Sat at *
+  rw [M.bind_apply]
+  obtain ⟨a, ha⟩ := hx w
+  cases hxw : x w with
+  | mk w1 r =>
+    rw [hxw] at ha
+    simp only at ha
+    subst ha
+    exact h a w1
+
 theorem Sat.attempt {α} {x : M α} {w : World} {Q : World → Except Err (Except Err α) → Prop}
     (h : Sat x w (fun w1 r => Q w1 (.ok r))) : Sat (attempt x) w Q := by
   unfold Sat at *
